@@ -98,17 +98,21 @@ class QGauss(object):
             raise ValueError(
                 "When integrating a function, send the " "x range [xmin,xmax] "
             )
+        # the rule of this call: func may use this object again (iterated
+        # integrals), possibly with another npts
+        xxi, wii = self.xxi, self.wii
+
         x1 = xvals[0]
         x2 = xvals[1]
 
         f1 = (x2 - x1) / 2.0
         f2 = (x2 + x1) / 2.0
 
-        xi = self.xxi * f1 + f2
+        xi = xxi * f1 + f2
 
         yvals = func(xi)
 
-        integrand = yvals * self.wii
+        integrand = yvals * wii
         isum = integrand.sum()
         return f1 * isum
 
